@@ -13,9 +13,9 @@ from .bytesm import Buf, Rope, WIRE, blen, as_parts
 
 
 class Sock:
-    __slots__ = ('rpos', 'total', 'end', 'out', 'closed', 'ty', 'wfail', 'pending')
+    __slots__ = ('rpos', 'total', 'end', 'out', 'closed', 'ty', 'wfail', 'pending', 'wslow', 'wfull')
 
-    def __init__(self, rpos, total, end='eof', out=(), closed=False, wfail=False, pending=()):
+    def __init__(self, rpos, total, end='eof', out=(), closed=False, wfail=False, pending=(), wslow=False, wfull=False):
         self.rpos = rpos
         self.total = total
         self.end = end
@@ -23,10 +23,12 @@ class Sock:
         self.closed = closed
         self.wfail = wfail
         self.pending = tuple(pending)     # bytes accepted by a BufWriter in front of the socket but not flushed yet
+        self.wslow = wslow                # the peer may stop reading: from some write on the send buffer is full, for ever
+        self.wfull = wfull
         self.ty = 'Sock'
 
     def upd(self, **kw):
-        s = Sock(self.rpos, self.total, self.end, self.out, self.closed, self.wfail, self.pending)
+        s = Sock(self.rpos, self.total, self.end, self.out, self.closed, self.wfail, self.pending, self.wslow, self.wfull)
         for k, v in kw.items():
             setattr(s, k, v)
         return s
@@ -62,6 +64,8 @@ def install(E):
         h = getattr(st, 'poll', None) or POLLS.get(getattr(st, 'ty', None))
         if h is None and getattr(st, 'ty', None) == 'AcceptFut' and getattr(E, 'accept_poll', None):
             h = E.accept_poll
+        if h is None and getattr(st, 'ty', None) == 'TickFut' and getattr(E, 'timer_tick_poll', None):
+            h = E.timer_tick_poll
         if h is None:
             raise Unsupported(f'poll of {st!r}')
         return h(E, st, pin.fields[0], ctx)
@@ -167,6 +171,11 @@ def install(E):
         if sock.wfail and E.choose(2, 'write') == 1:
             E.events.append(('write', 'fail'))
             return ready(err(Agg('io::Error', [Enum('ErrorKind', 'BrokenPipe'), None])))
+        if sock.wfull or (sock.wslow and not buffered and E.choose(2, 'sendbuf') == 1):
+            # the peer has stopped reading and the send buffer is full: the write suspends (and is never woken in this model)
+            E.store(sref, sock.upd(wfull=True))
+            E.events.append(('write', 'blocked'))
+            return PENDING
         if buffered:
             # a BufWriter keeps small writes until flush()/shutdown(); dropped unflushed they are lost
             E.store(sref, sock.upd(pending=sock.pending + (d,)))
@@ -175,6 +184,32 @@ def install(E):
             E.store(sref, sock.upd(out=sock.out + (d,)))
             E.events.append(('write', d))
         return ready(ok(UNIT))
+
+    # readiness + non-blocking write (TcpStream::writable / try_write)
+    @reg(E, 'tokio::net::TcpStream::writable', 'TcpStream::writable')
+    def writable(E, a, ctx):
+        return Agg('Writable', [a[0]])
+
+    def writable_poll(E, st, place, ctx):
+        sock = E.load(st.fields[0])
+        if sock.wfull:
+            E.events.append(('writable', 'blocked'))
+            return PENDING
+        return ready(ok(UNIT))
+    POLLS['Writable'] = writable_poll
+
+    @reg(E, 'tokio::net::TcpStream::try_write', 'TcpStream::try_write')
+    def try_write(E, a, ctx):
+        sref = a[0]
+        sock = E.load(sref)
+        d = E.load(a[1]) if isinstance(a[1], Ref) else a[1]
+        if sock.wfull or (sock.wslow and E.choose(2, 'sendbuf') == 1):
+            E.store(sref, sock.upd(wfull=True))
+            E.events.append(('try_write', 'wouldblock'))
+            return err(Agg('io::Error', [Enum('ErrorKind', 'WouldBlock'), None]))
+        E.store(sref, sock.upd(out=sock.out + (d,)))
+        E.events.append(('write', d))
+        return ok(blen(E, d))
 
     # a single write(): the kernel may accept any non-empty prefix of the buffer
     @reg_re(E, r'^<(tokio::net::TcpStream|tokio::io::BufWriter<tokio::net::TcpStream>|BufWriter<tokio::net::TcpStream>|tokio::io::BufStream<tokio::net::TcpStream>) as AsyncWriteExt>::write$')
